@@ -705,6 +705,10 @@ class Engine:
             fs = tuple(self.operand(path, f) for f in rv["fields"])
             ak = rv.get("ak")
             if ak == "adt":
+                # `Self { ..x }` / a struct rebuilt from all fields of one value, in order: that value (a plain move)
+                fnames = rv.get("field_names") or []
+                if len(fs) >= 2 and len(fnames) == len(fs) and all(f[0] == "field" and len(f) == 3 and f[1] == fs[0][1] and str(f[2]) == str(n_) for f, n_ in zip(fs, fnames)):
+                    return fs[0][1]
                 return ("adt", rv["path"], rv["variant"], fs)
             if ak == "tuple":
                 return ("tuple", fs) if fs else ("unit",)
